@@ -458,6 +458,34 @@ Proof.
   destruct (p a) as [v|] eqn:Ea; [|reflexivity]. apply aval_in_range_b. apply H. exact Ea.
 Qed.
 
+(* the converse: the boolean tests are sound *)
+Lemma aval_in_rangeb_sound : forall a v, aval_in_rangeb a v = true -> aval_in_range a v.
+Proof.
+  intros a v H. unfold aval_in_rangeb in H. unfold aval_in_range.
+  destruct (attr_type a) eqn:Ety; destruct v as [b|n|i sec]; try discriminate H; try exact I.
+  - destruct a; try discriminate H.
+    + apply andb_true_iff in H. destruct H as [H1 H2]. apply Z.leb_le in H1. apply Z.leb_le in H2. lia.
+    + apply andb_true_iff in H. destruct H as [H1 H2]. apply Z.leb_le in H1. apply Z.leb_le in H2. lia.
+    + apply orb_true_iff in H. destruct H as [H|H].
+      * apply orb_true_iff in H. destruct H as [H|H]; apply Z.eqb_eq in H; auto.
+      * apply Z.eqb_eq in H. auto.
+  - apply andb_true_iff in H. destruct H as [Hi Hs].
+    apply andb_true_iff in Hi. destruct Hi as [Hi1 Hi2]. apply Z.leb_le in Hi1. apply Z.leb_le in Hi2.
+    split; [lia|].
+    destruct sec as [c|]; [|exact I].
+    apply andb_true_iff in Hs. destruct Hs as [Hs Hb2]. apply andb_true_iff in Hs. destruct Hs as [Hs Hb1].
+    apply andb_true_iff in Hs. destruct Hs as [Hs Hg2]. apply andb_true_iff in Hs. destruct Hs as [Hs Hg1].
+    apply andb_true_iff in Hs. destruct Hs as [Hr1 Hr2].
+    apply Z.leb_le in Hr1. apply Z.leb_le in Hr2. apply Z.leb_le in Hg1. apply Z.leb_le in Hg2.
+    apply Z.leb_le in Hb1. apply Z.leb_le in Hb2. lia.
+Qed.
+Lemma pen_in_rangeb_sound : forall p, pen_in_rangeb p = true -> pen_in_range p.
+Proof.
+  intros p H a v Ha. unfold pen_in_rangeb in H.
+  pose proof (proj1 (forallb_forall _ _) H a (all_attrs_complete a)) as Hb.
+  cbv beta in Hb. rewrite Ha in Hb. apply aval_in_rangeb_sound. exact Hb.
+Qed.
+
 (* ---- mode comparison *)
 Definition ms_of_view (w : view) : mstate := mkMs (w_alt w) (w_cv w) (w_mouse w) (w_sgrm w) (w_kp w).
 Lemma ms_of_vt_view : forall v, ms_of_vt v = ms_of_view (view_of v).
@@ -687,6 +715,18 @@ Definition op_in_range (o : mop) : Prop :=
   end.
 Definition op_pen_ok (o : mop) : Prop :=
   match o with OSetpen p | OChpen p => pen_in_range p | _ => True end.
+Lemma op_in_range_b : forall o, op_in_range o -> op_in_rangeb o = true.
+Proof.
+  intros o H. destruct o as [c x|c|p|p| | | | |alt]; cbn [op_in_range op_in_rangeb] in *;
+    try reflexivity; try exact H; apply pen_in_range_b; exact H.
+Qed.
+Lemma op_in_rangeb_sound : forall o, op_in_rangeb o = true -> op_in_range o.
+Proof.
+  intros o H. destruct o as [c x|c|p|p| | | | |alt]; cbn [op_in_range op_in_rangeb] in *;
+    try exact I; try exact H; apply pen_in_rangeb_sound; exact H.
+Qed.
+Lemma op_in_range_pen_ok : forall o, op_in_range o -> op_pen_ok o.
+Proof. intros o H. destruct o; exact H || exact I. Qed.
 Definition op_kp_on (o : mop) : bool :=
   match o with OSet CtlKeypadApp v => negb (v =? 0) | OSetup _ => true | _ => false end.
 Lemma sets_keypad_on_eq : forall ops, sets_keypad_on ops = existsb op_kp_on ops.
@@ -1057,15 +1097,16 @@ Qed.
   Qed.
 
   Lemma hist_inv : forall kp colon rgb8 cshape ops t s n,
-    MInv kp colon rgb8 cshape t s -> Forall op_pen_ok ops -> (kp = true -> existsb op_kp_on ops = false) ->
+    MInv kp colon rgb8 cshape t s -> (kp = true -> existsb op_kp_on ops = false) ->
     forall i w, hist_check kp colon rgb8 cshape init_ms n t s ops <> MBadAt i w.
   Proof.
-    intros kp colon rgb8 cshape ops. induction ops as [|o r IH]; intros t s n Hinv Hall Hk i w.
+    intros kp colon rgb8 cshape ops. induction ops as [|o r IH]; intros t s n Hinv Hk i w.
     - cbn [hist_check]. discriminate.
     - cbn [hist_check].
       change (os_stopped s && negb (match o with ODestroy | OGet _ => true | _ => false end)) with (stop_guard s o).
       destruct (stop_guard s o) eqn:Hg; [discriminate|].
-      inversion Hall as [|o' r' Hp Hall']; subst.
+      destruct (op_in_rangeb o) eqn:Hr; cbn [negb]; [|discriminate].
+      pose proof (op_in_range_pen_ok o (op_in_rangeb_sound o Hr)) as Hp.
       assert (Hk1 : kp = true -> op_kp_on o = false).
       { intros Hkt. specialize (Hk Hkt). cbn [existsb] in Hk. apply orb_false_iff in Hk. apply Hk. }
       assert (Hk2 : kp = true -> existsb op_kp_on r = false).
@@ -1147,19 +1188,19 @@ Fixpoint wf_hist (stopped : bool) (ops : list mop) : Prop :=
 
 
   Theorem history_nokp : forall colon rgb8 cshape ops t s,
-    start_ok colon rgb8 cshape t s -> Forall op_pen_ok ops ->
+    start_ok colon rgb8 cshape t s ->
     forall i w, hist_check false colon rgb8 cshape init_ms 0 t s ops <> MBadAt i w.
   Proof.
-    intros colon rgb8 cshape ops t s Hstart Hall.
-    apply hist_inv; [apply start_inv; exact Hstart | exact Hall | discriminate].
+    intros colon rgb8 cshape ops t s Hstart.
+    apply hist_inv; [apply start_inv; exact Hstart | discriminate].
   Qed.
 
   Theorem history_full_partial : forall colon rgb8 cshape ops t s,
-    start_ok colon rgb8 cshape t s -> Forall op_pen_ok ops -> sets_keypad_on ops = false ->
+    start_ok colon rgb8 cshape t s -> sets_keypad_on ops = false ->
     forall i w, hist_check true colon rgb8 cshape init_ms 0 t s ops <> MBadAt i w.
   Proof.
-    intros colon rgb8 cshape ops t s Hstart Hall Hk.
-    apply hist_inv; [apply start_inv; exact Hstart | exact Hall |].
+    intros colon rgb8 cshape ops t s Hstart Hk.
+    apply hist_inv; [apply start_inv; exact Hstart |].
     intros _. exact Hk.
   Qed.
 
@@ -1177,7 +1218,8 @@ Fixpoint wf_hist (stopped : bool) (ops : list mop) : Prop :=
       assert (Hg : stop_guard s o = false).
       { unfold stop_guard. destruct (os_stopped s) eqn:Es; [|reflexivity].
         specialize (Hseq eq_refl). destruct o; try contradiction; reflexivity. }
-      assert (Hp : op_pen_ok o) by (destruct o; exact Hr || exact I).
+      pose proof (op_in_range_pen_ok o Hr) as Hp.
+      pose proof (op_in_range_b o Hr) as Hrb.
       assert (Hk1 : kp = true -> op_kp_on o = false).
       { intros Hkt. specialize (Hk Hkt). cbn [existsb] in Hk. apply orb_false_iff in Hk. apply Hk. }
       assert (Hk2 : kp = true -> existsb op_kp_on r = false).
@@ -1193,7 +1235,7 @@ Fixpoint wf_hist (stopped : bool) (ops : list mop) : Prop :=
         split; [rewrite Hst2, Hst1; cbn [existsb]; symmetry; apply orb_assoc|].
         intros n. cbn [hist_check length].
         change (os_stopped s && negb (match o with ODestroy | OGet _ => true | _ => false end)) with (stop_guard s o).
-        rewrite Hg, Hstep, Hc, Hchk. f_equal. lia.
+        rewrite Hg, Hrb. cbn [negb]. rewrite Hstep, Hc, Hchk. f_equal. lia.
   Qed.
 
   (* well-sequenced in-range histories are accepted in full: the checker never escapes
@@ -1283,12 +1325,19 @@ Proof.
   split; [exact fresh_start_ok|]. exists 1%nat, 2%nat. vm_compute. reflexivity.
 Qed.
 
-(* why [Forall op_pen_ok] is a premise of the history theorems: [hist_check] runs the model
-   before the checker tests the ranges, and the model faults (a palette index beyond the
-   table in convert_colour) on an out-of-range pen *)
+(* why [hist_check] tests the ranges before it runs the model: the model faults (a palette
+   index beyond the table in convert_colour) on an out-of-range pen; the walk answers "out of
+   range" there, as the oracle does on the implementation's bytes *)
 Definition out_of_range_pen : pen := fun a => match a with AFg => Some (VCol 300 None) | _ => None end.
+Example out_of_range_pen_model_faults : mode_step fresh_term (OSetpen out_of_range_pen) = None.
+Proof. vm_compute. reflexivity. Qed.
 Example out_of_range_pen_faults :
-  hist_check false false false false init_ms 0 fresh_term fresh_ostate [OSetpen out_of_range_pen] = MBadAt 0 99.
+  hist_check false false false false init_ms 0 fresh_term fresh_ostate [OSetpen out_of_range_pen] = MOutOfRange 0.
+Proof. vm_compute. reflexivity. Qed.
+(* an out-of-range operation later in a history: the prefix is checked, then "out of range" *)
+Example out_of_range_pen_later :
+  hist_check false false false false init_ms 0 fresh_term fresh_ostate
+    [OSet CtlCursorvis 0; OChpen out_of_range_pen; OTeardown] = MOutOfRange 1.
 Proof. vm_compute. reflexivity. Qed.
 
 (* a concrete history through setupterm, a pen, a pause / resume cycle and teardown *)
